@@ -197,7 +197,10 @@ class LeafLogger:
                 if len(tape.data) == 33 and isinstance(first, int) and first == MERKLEVAL:
                     me.nodes += 1
                 else:
+                    # neither a leaf nor a node lock: logged, and not executed (arbitrary symbolic bytes as a program explode; the
+                    # obligation below fails anyway)
                     me.foreign.append(len(tape.data))
+                    raise me.pkg.errors.ScriptExecutionError('foreign script handed to the evaluator')
             if additional_flags is None:
                 return me.real(tape, stack, cache)
             return me.real(tape, stack, cache, additional_flags)
@@ -209,14 +212,19 @@ class LeafLogger:
         return False
 
 
-def _leaf_scripts(c, pkg, n, slen=2, big=None):
+def _leaf_scripts(c, pkg, n, slen=2, big=None, dup=None):
     T = pkg.tools
     codes = [c.bytes(f'leaf{i}', slen) for i in range(n)]
+    if dup:
+        # the same script at two places that are not siblings (allowed: only *sibling* commitments must differ)
+        codes[dup[1]] = codes[dup[0]]
     if big:
         # leaf 0 is `big` concrete bytes (its run is summarised; only its length matters: push encodings at 255 / 256 / 257)
         codes[0] = b'\x01' * big          # concrete (were it ever executed outside its summarised evaluation, it only pushes)
     for i in range(n):
         for j in range(i):
+            if codes[i] is codes[j]:
+                continue
             c.assume(sym_not(bytes_eq(codes[i], codes[j])) if not c.concrete else codes[i] != codes[j])
     return codes, [T.Script(f'# leaf {i}', codes[i]) for i in range(n)]
 
@@ -227,7 +235,8 @@ def _check_leaf_run(c, pkg, unlock, lock, codes, want_leaf, depth, tag):
     with log:
         r = outcome_of(F.run_auth_scripts, [unlock, lock], c.dict())
     c.check('authorization_never_raises', r[0] == 'ok', got=repr(r)[:160])
-    c.check('exactly_the_chosen_leaf_is_evaluated_once', log.leaf_runs == [want_leaf], ran=log.leaf_runs, want=want_leaf)
+    first = next(k for k, code in enumerate(codes) if same_content(code, codes[want_leaf]))     # (equal scripts are one script)
+    c.check('exactly_the_chosen_leaf_is_evaluated_once', log.leaf_runs == [first], ran=log.leaf_runs, want=first)
     c.check('nothing_but_node_locks_and_the_leaf_is_evaluated', not log.foreign, foreign=log.foreign)
     c.check('one_node_lock_per_level', log.nodes == depth - 1, nodes=log.nodes, depth=depth)
     if log.leaf_runs:
@@ -239,11 +248,11 @@ def _check_leaf_run(c, pkg, unlock, lock, codes, want_leaf, depth, tag):
     c.reach(tag)
 
 
-def h_tree(c, pkg, n, shape_idx, leaf, big=None):
+def h_tree(c, pkg, n, shape_idx, leaf, big=None, dup=None):
     T = pkg.tools
     if not c.concrete:
         _setup()
-    codes, scripts = _leaf_scripts(c, pkg, n, big=big)
+    codes, scripts = _leaf_scripts(c, pkg, n, big=big, dup=dup)
     acc = [0]
     root = _build(T, shapes(n)[shape_idx], scripts, acc)
     leaves = acc[1:]
@@ -367,6 +376,11 @@ def _p_tree(tier):
     # leaf scripts whose length sits on the push-instruction boundaries (the proof pushes the script itself)
     sizes = (255, 256, 257) if tier == 'quick' else (127, 128, 255, 256, 257, 1000)
     out += [{'n': 3, 'shape_idx': 1, 'leaf': l, 'big': b} for b in sizes for l in (0, 2)]
+    # the same script twice on one proof path, not as siblings: (A, (A, B)), ((A, B), A), (A, (B, (A, C))) ...
+    sh3, sh4 = shapes(3), shapes(4)
+    out += [{'n': 3, 'shape_idx': sh3.index(('L', ('L', 'L'))), 'leaf': l, 'dup': [0, 1]} for l in range(3)]
+    out += [{'n': 3, 'shape_idx': sh3.index((('L', 'L'), 'L')), 'leaf': l, 'dup': [0, 2]} for l in range(3)]
+    out += [{'n': 4, 'shape_idx': sh4.index(('L', ('L', ('L', 'L')))), 'leaf': l, 'dup': [0, 2]} for l in range(4)]
     return out
 
 
